@@ -30,9 +30,11 @@ def main():
     try:
         mod = load_module(path)
     except BaseException as e:
+        from vf.replay import build_failure
+        bf = build_failure(e) if isinstance(e, Exception) else None
         for fn_name, _ in todo:
-            print("REC " + json.dumps({"fn": fn_name, "status": "HARNESS_ERROR",
-                                       "detail": "import: " + "".join(traceback.format_exception_only(type(e), e)).strip()[-600:]}), flush=True)
+            print("REC " + json.dumps({"fn": fn_name, "status": "BUILD_FAILED" if bf else "HARNESS_ERROR",
+                                       "detail": bf or "import: " + "".join(traceback.format_exception_only(type(e), e)).strip()[-600:]}), flush=True)
         return
     signal.signal(signal.SIGALRM, _alarm)
     for fn_name, timeout in todo:
